@@ -25,7 +25,8 @@ type SpecCtx struct {
 	quiet  bool
 	failed bool
 	depth  int
-	locals bool // loop context: a name denotes the current value of the local variable, not the parameter's entry value
+	block  *ssa.BasicBlock // loop header whose phis take precedence when a name is ambiguous
+	locals bool            // loop context: a name denotes the current value of the local variable, not the parameter's entry value
 }
 
 func (f *Frame) specCtx(h *Heap, env map[ssa.Value]Val) *SpecCtx {
@@ -228,6 +229,15 @@ func (c *SpecCtx) lookupLocal(name string) (Val, bool) {
 			case *ssa.Alloc:
 				if vv.Comment == name {
 					found = append(found, c.f.load(x, c.heap, "false", token.NoPos))
+				}
+			}
+		}
+		if len(found) > 1 && c.block != nil {
+			for _, v := range keys {
+				if phi, ok := v.(*ssa.Phi); ok && phi.Comment == name && phi.Block() == c.block {
+					if _, over := c.env[v]; !over {
+						return c.f.env[v], true
+					}
 				}
 			}
 		}
@@ -863,6 +873,19 @@ func (c *SpecCtx) evalCall(x SCall) Val {
 	case "sofbytes":
 		a := args()
 		return strV(app("sofbytes", terms(a)...))
+	case "wfbox": // the interface value holds no typed-nil pointer (closed world of boxed pointer types)
+		v := c.eval(x.Args[0])
+		u := c.f.en.u
+		var cs []string
+		bk := append([]string{}, u.boxedOrd...)
+		sort.Strings(bk)
+		for _, k := range bk {
+			t := u.boxed[k]
+			if _, isPtr := t.Underlying().(*types.Pointer); isPtr && c.f.en.u.isRepoType(derefNamed(t)) {
+				cs = append(cs, implies(app("(_ is "+u.boxName(t)+")", v.E), not(eq(pref(app(u.unboxName(t), v.E)), "0"))))
+			}
+		}
+		return boolV(and(append(cs, not(eq(v.E, "inil")))...))
 	case "typeis": // dynamic type test by type name string
 	case "min":
 		a := args()
